@@ -1,6 +1,6 @@
 (* C14 -- glue used by the generated correspondence cases (tools/sfv/props/c14.py): each chk_* is a bool saying
    "model / specification applied to the observed input == observed output".  No proofs here. *)
-Require Import SF.Prelude SF.Value SF.Dtype SF.PyDyn Gen.Gen_util SF.Missing.
+Require Import SF.Prelude SF.Value SF.Dtype SF.PyDyn Gen.Gen_util Gen.Gen_c14 SF.Missing.
 
 (* ---- util.isna_array, per element, driven by the REGENERATED kind constants of util.py ---- *)
 Definition kind_in (k : string) (c : pv) : bool :=
@@ -59,7 +59,7 @@ Definition chk_fillna_labels_S (labels inp : list val) (olabels ovals : list val
 
 (* ---- frames: cols = the columns (values down the rows) ---- *)
 Definition chk_dir_axis1_M fwd limit (nrows : nat) (layout : list (nat * bool)) (cols out : list (list val)) : bool :=
-  lines_match (M_dir_axis1 fwd limit nrows (blocks_of_columns nrows layout (map cells_of cols))) (transpose nrows out).
+  lines_match (M_dir_axis1 bwd_count_from_first fwd limit nrows (blocks_of_columns nrows layout (map cells_of cols))) (transpose nrows out).
 Definition chk_dir_axis1_S fwd limit (nrows : nat) (cols out : list (list val)) : bool :=
   lines_match (map (sdir fwd limit) (transpose nrows (map cells_of cols))) (transpose nrows out) && present_kept_lines cols out.
 Definition chk_dir_axis0_M fwd limit (cols out : list (list val)) : bool :=
@@ -98,10 +98,23 @@ Definition chk_dropna_frame_S (axis1 use_any : bool) (nrows : nat) (index column
   let kept := S_dropna_lines use_any labels (map cells_of lines) in
   vlist_eqb (map fst kept) olabels && lines_match (map snd kept) olines.
 
-(* M: TypeBlocks.dropna_to_keep_locations: unified Boolean array, condition along the other axis, logical_not *)
-Definition M_dropna_keep (axis1 use_any : bool) (nrows : nat) (isna_cols : list (list bool)) : list bool :=
-  let lines := if axis1 then isna_cols else transpose nrows isna_cols in
-  map (fun ln => negb (if use_any then existsb (fun b => b) ln else forallb (fun b => b) ln)) lines.
+(* M: TypeBlocks.dropna_to_keep_locations: the isna blocks are consolidated into ONE Boolean array; it is 2-D unless the frame
+   is a single 1-D block (single1d), in which case the pinned code (reshaped = false, read from the source: Gen/Gen_c14.v)
+   uses the per-row vector itself whatever the axis; otherwise the
+   condition (all / any) is applied along the other axis; then logical_not *)
+Definition M_dropna_keep (reshaped : bool) (axis1 use_any : bool) (nrows : nat) (single1d : bool) (isna_cols : list (list bool)) : list bool :=
+  if single1d && negb reshaped then map negb (match isna_cols with c :: _ => c | [] => [] end)
+  else map (fun ln => negb (if use_any then existsb (fun b => b) ln else forallb (fun b => b) ln))
+           (if axis1 then isna_cols else transpose nrows isna_cols).
+
+(* S: which lines survive *)
+Definition S_keep {A} (axis1 use_any : bool) (nrows : nat) (cols : list (list (option A))) : list bool :=
+  map (fun ln => negb (line_drop use_any ln)) (if axis1 then cols else transpose nrows cols).
+
+Definition chk_dropna_keep_M (axis1 use_any : bool) (nrows : nat) (single1d : bool) (cols : list (list val)) (out : list bool) : bool :=
+  blist_eqb (M_dropna_keep dropna_1d_reshaped axis1 use_any nrows single1d (map (map isna) cols)) out.
+Definition chk_dropna_keep_S (axis1 use_any : bool) (nrows : nat) (cols : list (list val)) (out : list bool) : bool :=
+  blist_eqb (S_keep axis1 use_any nrows (map cells_of cols)) out.
 
 Definition chk_fillna_frame_labels_S (index columns : list val) (cols : list (list val))
     (oindex ocolumns : list val) (ocols : list (list val)) (out : list (list val)) : bool :=
